@@ -2886,9 +2886,10 @@ static Node *struct_ref(Node *node, Token *tok) {
 static Node *new_inc_dec(Node *node, Token *tok, int addend) {
   add_type(node);
 
-  // A _Bool saturates, so the old value cannot be recovered from the
-  // new one. Convert `A++` to `tmp = &A, old = *tmp, *tmp += 1, old`.
-  if (node->ty->kind == TY_BOOL && !node->ty->is_atomic) {
+  // A _Bool saturates and floating-point addition rounds, so the old
+  // value cannot be recovered from the new one. Convert `A++` to
+  // `tmp = &A, old = *tmp, *tmp += 1, old`.
+  if ((node->ty->kind == TY_BOOL || is_flonum(node->ty)) && !node->ty->is_atomic) {
     Obj *tmp = new_lvar("", pointer_to(node->ty));
     Obj *old = new_lvar("", node->ty);
 
